@@ -39,7 +39,8 @@ def case_strategy(max_ops=30, op_names=None, weights=None, **spec_kw):
     return st.fixed_dictionaries({
         "spec": specs.model_spec(**kw),
         "path": st.sampled_from(build.BUILD_PATHS),
-        "ops": ops.history_strategy(max_ops, op_names, weights),
+        "ops": ops.history_strategy(max_ops, op_names, weights or {"remove_reactions": 3, "detached_bounds": 3, "readd": 2},
+                                    extra_inner=("detached_bounds",)),
     })
 
 
@@ -54,7 +55,7 @@ def audit_world(world, where):
 def check_case(case, ctx):
     build.reset_globals()
     model = build.build_model(case["spec"], case["path"])
-    world = ops.World(model, known=ctx.known)
+    world = ops.World(model, known=ctx.known, extra_in_context={"detached_bounds"})
     audit_world(world, "build")
     classes = set()
     state = {"n_struct": 0}
